@@ -19,11 +19,12 @@ import (
 //	range <start_ms> <end_ms> <step_ms> <expr>
 func probe(c *vf.Ctx, bin string) {
 	idx, _ := strconv.Atoi(os.Getenv("C18_PROBE_SET"))
-	s, err := startServer(c, bin, 0)
+	box, err := startServer(c, bin, 0)
 	if err != nil {
 		c.Broken("probe: %v", err)
 		return
 	}
+	s := box.s
 	defer s.Kill()
 	rng := c.Rand(uint64(1000 + idx))
 	set := genSet(rng, idx)
@@ -37,13 +38,14 @@ func probe(c *vf.Ctx, bin string) {
 		c.Broken("probe: %v", err)
 		return
 	}
-	run := &setRun{c: c, set: set, ref: ref, og: &og{s: s, db: "probe"}, ingest: "one-request/memtable"}
+	run := &setRun{c: c, set: set, ref: ref, og: &og{b: box, s: s, db: "probe"}, ingest: "one-request/memtable"}
 	if m := os.Getenv("C18_PROBE_INGEST"); m != "" {
 		run.ingest = m
 	}
 	if !run.load() {
 		return
 	}
+	box.onUp = run.waitVisible
 	fmt.Printf("set %d T0=%d End=%d series=%d\n", idx, set.T0, set.End, len(set.Series))
 	if os.Getenv("C18_PROBE_DUMP") != "" {
 		for _, sd := range set.Series {
